@@ -2,15 +2,15 @@ SPECIFICATION Spec
 CONSTANTS
   MaxB = 2
   NPs = {1}
-  MaxPost = 1
-  Reserve = FALSE
+  MaxPost = 0
+  Reserve = TRUE
   Titles <- TitleClasses
   Stack = 64
   WorkList = FALSE
   DestSpellings = {"none"}
   FollowRefs = FALSE
-  IdLimits = {1000000}
+  IdLimits = {7, 8, 9, 10}
   CheckedIds = FALSE
   Emit = FALSE
-PROPERTIES Reserved
+INVARIANTS RefinesFresh RefusedOk
 CHECK_DEADLOCK FALSE
